@@ -445,3 +445,32 @@ func rapidCollect[T any](t *testing.T, sink *Spec[T], gen func(*rapid.T) T, n in
 		_ = sink.Check(gen(rt), nil)
 	})
 }
+
+// FuzzWith turns the spec into a native coverage-guided fuzz target: the
+// fuzzer's bytes are the random tape of the rapid generator (rapid.MakeFuzz),
+// so coverage feedback steers the *structured* generator.  Thorough tier only.
+func (s *Spec[T]) FuzzWith(f *testing.F, gen func(*rapid.T) T) {
+	x := uint64(88172645463325252)
+	for i := 0; i < 12; i++ {
+		b := make([]byte, 512<<uint(i%4))
+		for j := range b {
+			x ^= x << 13
+			x ^= x >> 7
+			x ^= x << 17
+			b[j] = byte(x >> 32)
+		}
+		f.Add(b)
+	}
+	f.Fuzz(rapid.MakeFuzz(func(rt *rapid.T) {
+		c := gen(rt)
+		if s.Exclude != nil {
+			if id := s.Exclude(c); id != "" && knownOpen(id) {
+				return
+			}
+		}
+		if err := s.safeCheck(c, nil); err != nil {
+			p := s.violation(c, err)
+			rt.Fatalf("%s/%s violated: %v (case saved to %s)", s.Prop, s.Name, err, p)
+		}
+	}))
+}
